@@ -17,14 +17,17 @@ RULE = ("module ASTs (all item kinds, nesting <=3, each item independently docum
         "option in a body}; distinct by SHA-1 of (AST, layout)")
 ASSUMPTIONS = ["member/test declarations are directly followed by their undocumented implementing definition",
                "doc texts are benign sentences (no reST markup) so the indentation view is exact",
-               "command names never collide with aggregator processor names other than the documented kinds",
                "an implementing definition that carries a doccomment of its own may or may not get an entry (left open); "
                "everything around it is asserted"]
 BUDGET = {"quick": {"shards": 4, "examples": 300}, "thorough": {"shards": 16, "examples": 4000}}
 
 
 def strategy(tier):
-    p = G.Profile(max_items=8 if tier == "quick" else 14, depth=3 if tier == "quick" else 4, impl_doc=True, nest_all=True, dups=True)
+    from vlib.cminx_run import dispatch_collisions
+    # user commands whose names collide with the aggregator's `process_<name>` dispatch come first in the pool
+    cmds = dispatch_collisions() + G.GENERIC_CMDS
+    p = G.Profile(max_items=8 if tier == "quick" else 14, depth=3 if tier == "quick" else 4, impl_doc=True, nest_all=True, dups=True,
+                  generic_cmds=cmds)
     return st.fixed_dictionaries({"module": G.module(p), "layout": G.layout_choices()})
 
 
